@@ -50,7 +50,7 @@ func (h *Handler) remove(id string) {
 	h.trackedM.Lock()
 	defer h.trackedM.Unlock()
 	if iter, ok := h.tracked[id]; ok {
-		close(iter.msgC)
+		close(iter.done)
 		delete(h.tracked, id)
 	}
 }
@@ -88,9 +88,21 @@ func (h *Handler) HandleMessage(msg stanza.Message, r xmlstream.TokenReadEncoder
 			break
 		}
 	}
+	// Only the lookup needs the lock: handing the message over waits for the
+	// iterator, which may be closed (or its query may end) in the meantime.
 	h.trackedM.Lock()
-	defer h.trackedM.Unlock()
 	iter, ok := h.tracked[queryID]
+	h.trackedM.Unlock()
+	if ok {
+		select {
+		case iter.msgC <- xmlstream.MultiReader(xmlstream.Token(msgTok), xmlstream.Token(tok), r):
+			return nil
+		case <-iter.done:
+			// Nobody iterates over this query any more: the message goes to the
+			// fallback handler like any other.
+			ok = false
+		}
+	}
 	if !ok {
 		if h.inner != nil {
 			return h.inner.HandleMessage(msg, struct {
@@ -101,10 +113,7 @@ func (h *Handler) HandleMessage(msg stanza.Message, r xmlstream.TokenReadEncoder
 				Encoder:     r,
 			})
 		}
-		return nil
 	}
-
-	iter.msgC <- xmlstream.MultiReader(xmlstream.Token(msgTok), xmlstream.Token(tok), r)
 	return nil
 }
 
@@ -134,6 +143,7 @@ func (h *Handler) FetchIQ(ctx context.Context, filter Query, iq stanza.IQ, s *xm
 	msgC := make(chan xml.TokenReader)
 	iter := &Iter{
 		msgC: msgC,
+		done: make(chan struct{}),
 		h:    h,
 		id:   filter.ID,
 	}
